@@ -651,7 +651,8 @@ class ITerm2Image(GraphicsImage, metaclass=ITerm2ImageMeta):
                         # The frames are read as fully composed canvases; they must
                         # not be blended with (or disposed of as) what the source's
                         # last frame happens to specify
-                        save_args.update(disposal=0, blend=0)
+                        # Nor is there a default image (which isn't a frame) among them
+                        save_args.update(disposal=0, blend=0, default_image=False)
                     try:
                         img.save(
                             compressed_image, img.format, save_all=True, **save_args
